@@ -35,7 +35,9 @@ def _plan(tier):
           (PG.reusable_replace(0.05, True), 1, PT), (PG.die_then_submit(2), 1, PT),
           (PG.forced(2, False, 2), 1, PT),
           (PG.one_task(1, 0.05, "nowait"), 1, PT), (PG.one_task(1, None, "del"), 1, PT),
-          (PG.failing("bad_arg", 1), 1, PT), (PG.idle_then_submit(2, 0.05), 1, PT)]
+          (PG.failing("bad_arg", 1), 1, PT), (PG.idle_then_submit(2, 0.05), 1, PT),
+          (PG.forced_full_pipe(1, 1024, 3, 700, False), 1, PT),
+          (PG.forced_full_pipe(1, 1024, 3, 700, True), 1, PT)]
     if tier == "thorough":
         pl += [(PG.lifecycle_twice(2, None), 2, dict(kinds=("P",))), (PG.basic(2, 0.05), 2, PT),
                (PG.reusable_replace(None, False), 2, dict(kinds=("P",)))]
